@@ -1,5 +1,6 @@
 """C04 - fragmentation enumerates every ion once and agrees with the mass calculator."""
 import itertools
+import re
 from collections import Counter
 
 from vf.gen import pep as gp
@@ -16,7 +17,7 @@ RULE = ('fragment()/Fragmenter.fragment() requests on generated peptides of leng
         'Fragmenter (twice) against fragment(). signature = (ion-type classes, charges, isotopes, loss options, mode, '
         'precision class, modification placements); non-trivial = at least two ion types or a modification')
 ASSUMPTIONS = ['applicable losses follow the library\'s documented rule: one per regex match on the span, combinations up '
-               'to max_losses; generated loss patterns are residue classes, so matches are counted without regex',
+               'to max_losses; generated loss patterns are residue classes, anchored classes and look-arounds, matched on the ion\'s own residues',
                'in average mode a k-fold charged ion may differ by k*1.16e-4 (CODATA proton vs average hydrogen minus '
                'electron; the statement does not fix the convention)']
 LEVEL_TEXT = ('Every fragment() execution is checked ion by ion against an independent enumeration model and against '
@@ -42,10 +43,11 @@ def expected_spans(n, ion_type):
 
 
 def loss_set(span_seq, loss_rules, max_losses):
-    """loss_rules: [(set of letters, value)] -> set of applicable losses rounded to 9 places (0.0 always there)."""
+    """loss_rules: [(regex, value)] -> set of applicable losses rounded to 9 places (0.0 always there)."""
     applicable = []
-    for letters, val in loss_rules:
-        applicable.extend([val] * sum(1 for aa in span_seq if aa in letters))
+    for rx, val in loss_rules:
+        # one applicable loss per match of the rule ON THE ION'S OWN RESIDUES (anchors and look-arounds see the ion only)
+        applicable.extend([val] * len(re.findall(rx, span_seq)))
     out = set(applicable)
     for k in range(2, max_losses + 1):
         for comb in itertools.combinations(applicable, k):
@@ -251,8 +253,13 @@ def gen_request(rng, n):
     if rng.random() < 0.3:
         for _ in range(rng.randint(1, 2)):
             letters = ''.join(sorted(rng.sample(LETTERS, rng.randint(1, 3))))
-            custom.append((f'[{letters}]' if len(letters) > 1 or rng.random() < 0.5 else letters,
-                           rng.choice([-10.0, -5.0, -27.994915, -79.966331, -97.976896, 12.5])))
+            rx = f'[{letters}]' if len(letters) > 1 or rng.random() < 0.5 else letters
+            if rng.random() < 0.3:
+                # anchored / look-around rules (pyro-Glu style '^Q', C-terminal 'K$', context-dependent sites)
+                a = rng.choice(LETTERS)
+                rx = rng.choice([f'^{a}', f'^[{letters}]', f'{a}$', f'(?<={a})[{letters}]', f'[{letters}](?={a})',
+                                 f'(?<!^)[{letters}]'])
+            custom.append((rx, rng.choice([-10.0, -5.0, -27.994915, -79.966331, -97.976896, 12.5])))
     req['losses'] = custom
     # keep the request size bounded
     n_int = max(0, (n - 1) * (n - 2) // 2)
@@ -274,11 +281,11 @@ def gen_request(rng, n):
 def loss_rules_of(req):
     rules = []
     for restr, val in req['losses']:
-        rules.append((set(restr.strip('[]')), val))
+        rules.append((restr, val))
     if req['water_loss']:
-        rules.append((set('STED'), WATER[1]))
+        rules.append(('[STED]', WATER[1]))
     if req['ammonia_loss']:
-        rules.append((set('RKNQ'), AMMONIA[1]))
+        rules.append(('[RKNQ]', AMMONIA[1]))
     return rules
 
 
